@@ -1,12 +1,14 @@
 /-
   Codec: model of the text codec of /repo/num (as the code is NOW, i.e. after
-  fix 36384ed):
+  fix 36384ed and after the fix that decodes quoted JSON values):
 
     amount.go      AmountFromString, isDigits, intPow, String, MinimalString,
-                   UnmarshalText, UnmarshalJSON, unquote
+                   UnmarshalText, UnmarshalJSON, jsonText
     percentage.go  PercentageFromString, String, UnmarshalText, UnmarshalJSON
     strconv        ParseInt(_, 10, 64)   (modelled: sign, digits, range)
     fmt            Sprintf("%d"), Sprintf("%0*d")  (modelled)
+    encoding/json  Unmarshal of one string token into a string (modelled:
+                   scanner + unquoteBytes, `jsonDecodeString`)
 
   Texts are `List Char` in which **every element stands for one byte** of the
   Go string (the driver maps byte b to `Char.ofNat b`); the Go code only ever
@@ -118,11 +120,14 @@ inductive Err where
   | minorDigits  -- decimal part not digits only
   | decimals     -- more than 18 decimals
   | range        -- combined value beyond int64
+  | json         -- UnmarshalJSON: a quoted value that is not a valid JSON string
+  | empty        -- Percentage.UnmarshalJSON: the empty JSON string
 deriving DecidableEq, Repr
 
 def Err.name : Err → String
   | .separators => "separators" | .major => "major" | .majorDigits => "majorDigits"
   | .minor => "minor" | .minorDigits => "minorDigits" | .decimals => "decimals" | .range => "range"
+  | .json => "json" | .empty => "empty"
 
 /-- the unsigned part of `AmountFromString`: value and exponent of the text
     after the optional leading '-' -/
@@ -181,22 +186,158 @@ def amountMinimalString (a : Amount) : Text :=
   let s := amountToString a
   if !s.contains '.' then s else trimSuffixDot (trimRightZeros s)
 
-/-! ### UnmarshalText / UnmarshalJSON / unquote -/
+/-! ### encoding/json: `json.Unmarshal(value, &text)` on a JSON string token
+
+What `jsonText` of amount.go relies on: `checkValid` (the scanner: one string
+literal, then only white space) followed by `unquoteBytes` (escapes resolved,
+`\uXXXX` surrogate pairs combined, a lone surrogate and every byte that is not
+part of a well-formed UTF-8 sequence replaced by U+FFFD).  Byte level, like
+the rest of this file. -/
+
+/-- `isSpace` of the scanner -/
+def isJsonSpace (c : Char) : Bool := c == ' ' || c == '\t' || c == '\r' || c == '\n'
+
+/-- one hexadecimal digit (`getu4`: 0-9, a-f, A-F) -/
+def hexVal? (c : Char) : Option Nat :=
+  let n := c.toNat
+  if 48 ≤ n && n ≤ 57 then some (n - 48)
+  else if 97 ≤ n && n ≤ 102 then some (n - 87)
+  else if 65 ≤ n && n ≤ 70 then some (n - 55)
+  else none
+
+/-- `getu4`: the code unit of a leading `\uXXXX`, `none` for Go's -1 -/
+def getu4 : Text → Option Nat
+  | '\\' :: 'u' :: a :: b :: c :: d :: _ =>
+    match hexVal? a, hexVal? b, hexVal? c, hexVal? d with
+    | some a, some b, some c, some d => some (((a * 16 + b) * 16 + c) * 16 + d)
+    | _, _, _, _ => none
+  | _ => none
+
+/-- the bytes U+FFFD is written with -/
+def replacementBytes : Text := [Char.ofNat 0xEF, Char.ofNat 0xBF, Char.ofNat 0xBD]
+
+/-- `utf8.EncodeRune` (surrogates and values beyond U+10FFFF give U+FFFD) -/
+def utf8Encode (r : Nat) : Text :=
+  if r < 0x80 then [Char.ofNat r]
+  else if r < 0x800 then [Char.ofNat (0xC0 + r / 64), Char.ofNat (0x80 + r % 64)]
+  else if (0xD800 ≤ r && r < 0xE000) || r > 0x10FFFF then replacementBytes
+  else if r < 0x10000 then
+    [Char.ofNat (0xE0 + r / 4096), Char.ofNat (0x80 + r / 64 % 64), Char.ofNat (0x80 + r % 64)]
+  else
+    [Char.ofNat (0xF0 + r / 262144), Char.ofNat (0x80 + r / 4096 % 64),
+     Char.ofNat (0x80 + r / 64 % 64), Char.ofNat (0x80 + r % 64)]
+
+def inRange (lo hi : Nat) (c : Char) : Bool := lo ≤ c.toNat && c.toNat ≤ hi
+
+/-- size `utf8.DecodeRune` reports for a well-formed sequence at the head of `s`
+    (first-byte table of unicode/utf8: no overlong forms, no surrogates, nothing
+    above U+10FFFF); 0 where it reports `(RuneError, 1)` -/
+def utf8SeqLen (s : Text) : Nat :=
+  match s with
+  | [] => 0
+  | c0 :: rest =>
+    let b := c0.toNat
+    if b < 0x80 then 1
+    else if 0xC2 ≤ b && b ≤ 0xDF then
+      match rest with
+      | c1 :: _ => if inRange 0x80 0xBF c1 then 2 else 0
+      | _ => 0
+    else if 0xE0 ≤ b && b ≤ 0xEF then
+      match rest with
+      | c1 :: c2 :: _ =>
+        let lo := if b == 0xE0 then 0xA0 else 0x80
+        let hi := if b == 0xED then 0x9F else 0xBF
+        if inRange lo hi c1 && inRange 0x80 0xBF c2 then 3 else 0
+      | _ => 0
+    else if 0xF0 ≤ b && b ≤ 0xF4 then
+      match rest with
+      | c1 :: c2 :: c3 :: _ =>
+        let lo := if b == 0xF0 then 0x90 else 0x80
+        let hi := if b == 0xF4 then 0x8F else 0xBF
+        if inRange lo hi c1 && inRange 0x80 0xBF c2 && inRange 0x80 0xBF c3 then 4 else 0
+      | _ => 0
+    else 0
+
+/-- the byte a two-character escape stands for (`\'` is refused by the scanner) -/
+def simpleEscape (e : Char) : Option Char :=
+  if e == '"' || e == '\\' || e == '/' then some e
+  else if e == 'b' then some (Char.ofNat 8)
+  else if e == 'f' then some (Char.ofNat 12)
+  else if e == 'n' then some (Char.ofNat 10)
+  else if e == 'r' then some (Char.ofNat 13)
+  else if e == 't' then some (Char.ofNat 9)
+  else none
+
+/-- the text after the opening quote: decoded content when it is the rest of one
+    valid string literal followed by white space only.  Every step consumes at
+    least one byte; the fuel is the number of steps allowed. -/
+def jsonStringBody : Nat → Text → Option Text
+  | 0, _ => none
+  | f + 1, s =>
+    match s with
+    | [] => none
+    | c :: rest =>
+      if c == '"' then (if rest.all isJsonSpace then some [] else none)
+      else if c == '\\' then
+        match rest with
+        | [] => none
+        | e :: rest' =>
+          if e == 'u' then
+            match getu4 s with
+            | none => none
+            | some rr =>
+              let after := s.drop 6
+              if 0xD800 ≤ rr && rr < 0xE000 then
+                -- utf16.DecodeRune(rr, getu4(after)): a valid pair is consumed as a whole
+                match getu4 after with
+                | some rr1 =>
+                  if rr < 0xDC00 && 0xDC00 ≤ rr1 && rr1 < 0xE000 then
+                    (jsonStringBody f (after.drop 6)).map
+                      (utf8Encode ((rr - 0xD800) * 1024 + (rr1 - 0xDC00) + 0x10000) ++ ·)
+                  else (jsonStringBody f after).map (replacementBytes ++ ·)
+                | none => (jsonStringBody f after).map (replacementBytes ++ ·)
+              else (jsonStringBody f after).map (utf8Encode rr ++ ·)
+          else
+            match simpleEscape e with
+            | some d => (jsonStringBody f rest').map (d :: ·)
+            | none => none
+      else if c.toNat < 0x20 then none
+      else if c.toNat < 0x80 then (jsonStringBody f rest).map (c :: ·)
+      else
+        let n := utf8SeqLen s
+        if n == 0 then (jsonStringBody f rest).map (replacementBytes ++ ·)
+        else (jsonStringBody f (s.drop n)).map (s.take n ++ ·)
+
+/-- `json.Unmarshal(value, &text)` for a `value` that starts with a quote:
+    `none` is the syntax error -/
+def jsonDecodeString (value : Text) : Option Text :=
+  match value with
+  | '"' :: r => jsonStringBody (r.length + 1) r
+  | _ => none
+
+/-! ### UnmarshalText / UnmarshalJSON / jsonText -/
 
 def nullText : Text := ['n', 'u', 'l', 'l']
-
-/-- `unquote`: strips one pair of surrounding quotes when longer than 2 bytes -/
-def unquote (value : Text) : Text :=
-  if value.length > 2 && value.head? == some '"' && value.getLast? == some '"'
-  then (value.drop 1).dropLast else value
 
 /-- `(*Amount).UnmarshalText`; `cur` is the receiver's value before the call -/
 def amountUnmarshalText (cur : Amount) (value : Text) : Except Err Amount :=
   if value = nullText then .ok cur else amountFromString value
 
+/-- `jsonText`: the text to parse and whether the value is the literal `null`.
+    A value that starts with a quote is decoded as a JSON string, anything else
+    is taken as it is. -/
+def jsonText (value : Text) : Except Err (Text × Bool) :=
+  if value.head? == some '"' then
+    match jsonDecodeString value with
+    | none => .error .json
+    | some t => .ok (t, false)
+  else .ok (value, value == nullText)
+
 /-- `(*Amount).UnmarshalJSON` (on the raw JSON token) -/
 def amountUnmarshalJSON (cur : Amount) (value : Text) : Except Err Amount :=
-  amountUnmarshalText cur (unquote value)
+  match jsonText value with
+  | .error e => .error e
+  | .ok (text, null) => if null then .ok cur else amountFromString text
 
 /-! ### percentages -/
 
@@ -216,7 +357,14 @@ def pctToString (p : Pct) : Text := amountToString p.toAmount ++ ['%']
 def pctUnmarshalText (cur : Pct) (value : Text) : Except Err Pct :=
   if value = nullText then .ok cur else percentageFromString value
 
+/-- `(*Percentage).UnmarshalJSON`: the empty JSON string is refused before
+    `PercentageFromString` (which reads the empty text as 0%) sees it -/
 def pctUnmarshalJSON (cur : Pct) (value : Text) : Except Err Pct :=
-  pctUnmarshalText cur (unquote value)
+  match jsonText value with
+  | .error e => .error e
+  | .ok (text, null) =>
+    if null then .ok cur
+    else if text.isEmpty then .error .empty
+    else percentageFromString text
 
 end GoblVerif.Codec
